@@ -396,12 +396,18 @@ def run_path(run, decisions, fmodel, todo):
     return res
 
 
-def explore(run, fmodel="ORDER", prefix=(), max_paths=200000):
-    """Enumerate all paths of `run(ctx)` under the decision prefix. Yields PathResult."""
+def explore(run, fmodel="ORDER", prefix=(), max_paths=200000, split=0, pending_out=None):
+    """Enumerate all paths of `run(ctx)` under the decision prefix. Yields PathResult.
+
+    With split > 0 the exploration is breadth-first and stops as soon as at least `split` unexplored
+    prefixes are pending; those are appended to `pending_out` (to be explored by other processes)."""
     todo = [list(prefix)]
     n = 0
     while todo:
-        dec = todo.pop()
+        if split and len(todo) >= split:
+            pending_out.extend(todo)
+            return
+        dec = todo.pop(0) if split else todo.pop()
         n += 1
         if n > max_paths:
             raise Unsupported(f"more than {max_paths} paths")
